@@ -230,7 +230,8 @@ pub fn gen(ctx: &mut Ctx) {
     // ---- COSE keys handed to the public-key converter
     { use coset::{CborSerializable, CoseKeyBuilder, iana};
       let mut valid = vec![];
-      for (lx, ly) in [(32usize, 32usize), (31, 32), (32, 31), (33, 32), (0, 0), (32, 64), (1, 1)] {
+      // every split of 64 bytes between the coordinates near the ends and the middle, and lengths around 32 on either side
+      for (lx, ly) in [(32usize, 32usize), (31, 32), (32, 31), (33, 32), (0, 0), (32, 64), (1, 1), (31, 33), (33, 31), (0, 64), (64, 0), (1, 63), (63, 1), (16, 48), (30, 34), (32, 33), (32, 0), (0, 32), (64, 64)] {
           valid.push(CoseKeyBuilder::new_ec2_pub_key(iana::EllipticCurve::P_256, ctx.rng.bytes(lx), ctx.rng.bytes(ly)).algorithm(iana::Algorithm::ES256).build().to_vec().unwrap()); }
       let inputs = mutate(ctx, &valid, n, false); run_inputs(ctx, "coseKeyDer", &inputs); }
 }
